@@ -140,6 +140,21 @@ theorem remap_region (c : RemapCfg) (l1 l2 : List RemapRegion) (g : RemapRegion)
       (((g.dstOrigin + Remap.srcAdr c a - g.srcOrigin) % 2 ^ Remap.tmpBits c) >>> c.shift) % 2 ^ c.saw := by
   simp only [Remap.mapAdr, h, Remap.applyRegions_last c a l1 l2 g _ hg h2, Remap.regionAdr]
 
+/-- The region test is made on the exact byte address for every bus width (the temporaries are
+    `len(adr) + shift + 1` bits wide — the repaired defect C07-remapper-wide-bus-region): a region is active
+    iff `src.origin ≤ adr_remap·2^shift < src.origin + src.size`. -/
+theorem remap_region_test_exact (c : RemapCfg) (ho : c.origin >>> c.shift < 2 ^ c.aw) (g : RemapRegion) (a : Nat) :
+    Remap.regionActive c g a =
+      (decide (g.srcOrigin ≤ Remap.adrRemap c a * 2 ^ c.shift) &&
+       decide (Remap.adrRemap c a * 2 ^ c.shift < g.srcOrigin + g.srcSize)) := by
+  simp only [Remap.regionActive, Remap.srcAdr_exact c ho]
+
+/-- 64-bit bus, region `0x9000_0000 → 0x1000_0000` (the witness of the repaired defect): translated. -/
+example :
+    let c : RemapCfg := { aw := 29, saw := 29, shift := 3, origin := 0, size := 2 ^ 32,
+                          regions := [{ srcOrigin := 0x90000000, srcSize := 0x1000, dstOrigin := 0x10000000 }] }
+    Remap.mapAdr c (0x90000008 / 8) = 0x10000008 / 8 := by decide
+
 /-! ## Wishbone2CSR -/
 
 /-- **`wishbone.Wishbone2CSR` over a CSR register file is a flat memory of CSR words** — both `register`
